@@ -230,8 +230,26 @@ for fname in ('varint_decode', 'decompress_ids'):
                         check_replay(fname, r, m, {'op': fname, 'bytes': cb}, lambda rep: (rep.get('out') == co, co))
                         if n == N_BYTES and k == 1:
                             ck.sample({'obligation': 'decoder_total', 'fn': fname, 'bytes': cb, 'decoded': co})
+# malformed input of the kind a bounded decoder must survive: long runs of continuation bytes (far beyond the 10 bytes a
+# u64 needs), low seven bits arbitrary, followed by one arbitrary byte
+RUNS = (11, 40, 70) if T == 'quick' else (11, 20, 37, 40, 64, 70, 130, 260)
+ck.declare('decoder_total_long_runs', f'byte strings of {list(RUNS)} continuation bytes (low 7 bits arbitrary) plus one arbitrary byte', 'varint_decode / decompress_ids do not panic and return at most one value per input byte')
+for fname in ('varint_decode', 'decompress_ids'):
+    for n in RUNS:
+        bs = u64list('c', n + 1, 8)
+        st = ex.new_state()
+        for b in bs[:-1]:
+            st.assume(z3.UGE(b.v, 0x80))
+        res = run_fn(fname, [ref(Seq('u8', list(bs)))], st)
+        ck.note_path_problem(res, f'{fname} run n={n}')
+        for r in res:
+            wit = lambda m, fname=fname, bs=bs: {'fn': fname, 'bytes': [mval(m, b.v) for b in bs]}
+            if r.status == 'panic':
+                ck.require(ex, 'decoder_total_long_runs', r.pc, None, z3.BoolVal(False), lambda m, fname=fname, bs=bs, r=r: {'fn': fname, 'bytes': [mval(m, b.v) for b in bs], 'panic': r.msg}, lambda m, w: 'decoder-panic')
+            elif r.status == 'return':
+                ck.require(ex, 'decoder_total_long_runs', r.pc, None, z3.BoolVal(len(r.retval.elems) <= n + 1), wit, lambda m, w: 'decoder-len')
 for v in ck.violations:
-    if v['obligation'] == 'decoder_total':
+    if v['obligation'] in ('decoder_total', 'decoder_total_long_runs'):
         rep = Replay.call({'op': v['witness']['fn'], 'bytes': v['witness']['bytes']})
         v['replayed'] = bool(rep.get('panic')) or len(rep.get('out', [])) > len(v['witness']['bytes'])
         v['native'] = rep
